@@ -128,6 +128,21 @@ func errorOrigins(v ssa.Value, seen map[ssa.Value]bool) []*ssa.Call {
 			}
 			return out
 		}
+		// load of a variable of the enclosing function that this function literal
+		// captured: the stores into its cell, wherever they are
+		if fv, ok := x.X.(*ssa.FreeVar); ok && x.Op == token.MUL {
+			if a, isA := cellOf(fv).(*ssa.Alloc); isA && a.Parent() != nil {
+				var out []*ssa.Call
+				for _, f := range withAnon(topFn(a.Parent())) {
+					instrsOf(f, func(i ssa.Instruction) {
+						if st, ok := i.(*ssa.Store); ok && cellOf(st.Addr) == ssa.Value(a) {
+							out = append(out, errorOrigins(st.Val, seen)...)
+						}
+					})
+				}
+				return out
+			}
+		}
 	}
 	return nil
 }
@@ -578,6 +593,7 @@ func (c *Ctx) classifyErrCall(call *ssa.Call) (class, trigger, why string) {
 func (c *Ctx) RuleB(rule string, reach map[*ssa.Function]bool, chain func(*ssa.Function) string, classes map[string]bool) {
 	sites := c.terminatorSites()
 	counts := map[string]int{}
+	sameSite := map[string]string{}
 	classified := 0
 	for _, s := range sites {
 		if reach != nil && !reach[s.fn] {
@@ -607,7 +623,21 @@ func (c *Ctx) RuleB(rule string, reach map[*ssa.Function]bool, chain func(*ssa.F
 			detail += "; site is in helper " + name(s.fn)
 		}
 		for _, owner := range owners {
-			key := ordinalKey(counts, name(owner)+":"+base)
+			// the same terminator statement written out more than once (an unrolled loop, a
+			// branch copied into each arm): same terminator, same trigger and class, same
+			// constant message - one site, whatever the number of copies
+			var key string
+			if msg := constMessageOf(s.instr); msg != "" {
+				same := name(owner) + ":" + base + "|" + s.class + "|" + msg
+				if k, seen := sameSite[same]; seen {
+					key = k
+				} else {
+					key = ordinalKey(counts, name(owner)+":"+base)
+					sameSite[same] = key
+				}
+			} else {
+				key = ordinalKey(counts, name(owner)+":"+base)
+			}
 			construct := strings.TrimPrefix(key, name(owner)+":")
 			switch {
 			case s.class == "INFEASIBLE" || s.class == "WRITER":
@@ -625,6 +655,19 @@ func (c *Ctx) RuleB(rule string, reach map[*ssa.Function]bool, chain func(*ssa.F
 	}
 	c.R.Extra["terminator_sites_in_library"] = len(sites)
 	c.R.Extra["terminator_sites_in_scope"] = classified
+}
+
+// constMessageOf: the constant format/message string a terminator call is given
+// as its first argument ("" if it has none).
+func constMessageOf(i ssa.Instruction) string {
+	call, ok := i.(ssa.CallInstruction)
+	if !ok || len(call.Common().Args) == 0 {
+		return ""
+	}
+	if k, isK := call.Common().Args[0].(*ssa.Const); isK && k.Value != nil && types.Identical(k.Type().Underlying(), types.Typ[types.String]) {
+		return k.Value.ExactString()
+	}
+	return ""
 }
 
 // exportedOwners returns the exported library functions/methods from which fn
@@ -854,9 +897,32 @@ func (c *Ctx) ruleHashAvailable(rule string, in func(*ssa.Function) bool) int {
 					}
 				}
 			}
+			if !guarded && c.hashFoundFlagTested(fn, call.Block(), recv) {
+				// the lookup reports "found" next to the value and the flag is tested
+				guarded = true
+			}
 			if guarded {
 				c.R.Okf(rule, name(fn), construct, c.IPos(call), "a hash function selected from input is tested before New/Size is called on it")
 				return
+			}
+			// value, found := table[key] on a package-level map that only the initialiser
+			// fills, used behind a test that found is true: the value is one the
+			// initialiser entered; which values it enters is not evaluated
+			if ex, isEx := recv.(*ssa.Extract); isEx && ex.Index == 0 {
+				if lk, isLk := ex.Tuple.(*ssa.Lookup); isLk && lk.CommaOk {
+					if gl, initOnly := c.initOnlyMap(lk); initOnly {
+						found := false
+						for _, ce := range ir.DominatingConds(fn, call.Block()) {
+							if fe, isF := ce.Cond.(*ssa.Extract); isF && fe.Tuple == ssa.Value(lk) && fe.Index == 1 && ce.Truth {
+								found = true
+							}
+						}
+						if found {
+							c.R.Infof(rule, name(fn), construct, c.IPos(call), "not decided for this shape: the hash function is an entry of the package-level map "+gl.Name()+" that only the initialiser fills, used behind a test that the key was found; that every entry the initialiser makes is a linked hash function is not evaluated")
+							return
+						}
+					}
+				}
 			}
 			c.R.Add(report.Obligation{Rule: rule, Key: rule + "@" + name(fn) + ":" + construct, Func: name(fn), Pos: c.IPos(call), Status: report.Violation, Hard: zero,
 				What:   "a hash function selected from input is tested before New/Size is called on it",
